@@ -480,6 +480,23 @@ def rule_capacity_rise_repolls(ctx: Ctx) -> None:
                 # writes at construction-time helpers are exempt only through the __init__ skip above
                 ctx.ob("C08-7", "G2", m, w, ok, f"{c.name}.{m.name}: a run-time change of the capacity `{cap}` tells the driver to look at the queue (QueueNotifyEvent to the driver at the same instant), "
                        "otherwise items queued while there was no room wait although there is room now" + ("" if ok else " — " + why))
+    # capacity *models* (plain objects a Server delegates has_capacity() to): a method that can raise the limit at run time has no way to emit
+    # an event, so unless the owning server is told, queued work waits for the next completion although slots are free
+    for c in prog.module(CONC).classes.values():
+        hc = c.methods.get("has_capacity")
+        if hc is None or prog.is_subclass(c, "Entity"):
+            continue
+        rets = [s_ for s_ in walk_stmts(hc.node.body) if isinstance(s_, ast.Return) and s_.value is not None]
+        lims = {sg[2] for r_ in rets for sg in (f.sig for f in atoms(r_.value, True)) if sg[0] in ("lt", "le") and sg[2].startswith("self.") and "(" not in sg[2]}
+        for lim in sorted(lims):
+            for m in c.methods.values():
+                if m.name in ("__init__", "__post_init__"):
+                    continue
+                for w in [s_ for s_ in walk_stmts(m.node.body) if isinstance(s_, (ast.Assign, ast.AugAssign)) and any(path_of(t_) == lim for t_ in (s_.targets if isinstance(s_, ast.Assign) else [s_.target]))]:
+                    n_w += 1
+                    tells = [k for k in calls_in(m.node) if isinstance(k.func, ast.Attribute) and k.func.attr in ("_on_limit_raised", "on_limit_raised", "notify", "_notify")]
+                    ctx.ob("C08-7", "G2", m, w, bool(tells), f"{c.name}.{m.name} can raise the concurrency limit `{lim}` of a running server but nothing tells the server's queue driver: queued items "
+                           "wait for the next completion although slots are free")
     need(n_cls >= 1 and n_w >= 1, f"C08-7: expected at least one queue-fronted component with a run-time capacity attribute (ShiftedServer), found {n_cls} classes / {n_w} writes")
 
 
